@@ -96,6 +96,13 @@ def construct(cls, vin, vout, mapping, threshold, model_cfg=None, **kw):
         if model_cfg is not None:
             model.config[nengo.Ensemble].neuron_type = model_cfg
         args = dict(input_vocab=vin, mapping=mapping)
+        if isinstance(mapping, (list, tuple)):
+            # a key list may be any iterable: every third construction gets a one-shot iterator, every third a generator
+            construct.n = getattr(construct, "n", 0) + 1
+            if construct.n % 3 == 1:
+                args["mapping"] = iter(list(mapping))
+            elif construct.n % 3 == 2:
+                args["mapping"] = (k_ for k_ in list(mapping))
         if vout is not None:
             args["output_vocab"] = vout
         if cls == "thr":
